@@ -65,8 +65,16 @@ def cases_for(ctx):
     cases.append({'behaviours': [E, D, E, E, E], 'recycle': 2, 'consume': ['raise', 2], 'via_studio': True})
     cases.append({'behaviours': [E, D, E, E, E], 'recycle': 3, 'consume': ['drop', 1], 'via_studio': True})
     cases.append({'behaviours': [E, E, E, E, E, E, E], 'recycle': 2, 'consume': 'full', 'slow_start': 0.4})
+    # two comparison runs alive in one process (two categories consumed in lock step): the end of one must not wait for, or take away,
+    # the worker of the other
+    cases.append({'behaviours': [E, D, E, E, E], 'recycle': 2, 'consume': 'full', 'companion': True})
+    cases.append({'behaviours': [E, 'hang', E, D], 'recycle': 3, 'consume': ['close', 3], 'companion': True})
+    # a timeout that is not a small number of seconds: "within roughly that timeout" does not depend on how long the timeout is
+    cases.append({'behaviours': [E, 'hang', E], 'recycle': 3, 'timeout': 16.0, 'consume': 'full'})
     if ctx.quick:
         return cases
+    cases.append({'behaviours': [E, D, E], 'recycle': 1, 'consume': ['raise', 2], 'companion': True})
+    cases.append({'behaviours': ['exit', E, 'hang'], 'recycle': 2, 'timeout': 24.0, 'consume': 'full'})
     cases.append({'behaviours': [E, 'hang', E, E], 'recycle': 2, 'consume': 'full', 'via_studio': True})
     cases.append({'behaviours': ['start_async_cassette', E, E], 'recycle': 5, 'consume': ['close', 2]})
     cases.append({'behaviours': [E, 'exit', E, E, E], 'recycle': 1, 'consume': 'full', 'slow_start': 0.3})
@@ -107,6 +115,12 @@ def judge(ctx, case, res, w):
         problems.append(('comparison run did not finish normally: %s' % (res['error'] or 'generator not exhausted'), {}))
     if len(res['results']) != n_expected:
         problems.append(('run yielded %d comparisons, %d expected' % (len(res['results']), n_expected), {}))
+    comp = res.get('companion') or {}
+    if case.get('companion'):
+        ctx.count('runs_with_a_second_run_alive')
+        if comp.get('error') or comp.get('got') != comp.get('expected'):
+            problems.append(('a second comparison run alive in the same process did not get its verdicts (%s, got %r)' % (comp.get('error'), comp.get('got')), {}))
+    timeout = case['tighten_after']['timeout'] if case.get('tighten_after') else case.get('timeout', TIMEOUT)
     # bounded progress per comparison
     prev = 0.0
     for i, t in enumerate(res['stamps']):
@@ -114,8 +128,8 @@ def judge(ctx, case, res, w):
         prev = t
         ctx.maximum('max_seconds_for_one_comparison', round(dt, 3))
         ctx.count('comparisons_timed')
-        if dt > TIMEOUT + MARGIN:
-            problems.append(('comparison %d (%s) took %.1f s, timeout is %.1f s' % (i, beh[i], dt, TIMEOUT), {'timing': True}))
+        if dt > timeout + MARGIN:
+            problems.append(('comparison %d (%s) took %.1f s, timeout is %.1f s' % (i, beh[i], dt, timeout), {'timing': True}))
     # failures are reported as failures (termination with the right verdict for hang/exit)
     for i, r in enumerate(res['results']):
         if beh[i] in ('hang', 'exit', 'hang_sigterm_ignored') and r['status'] != 'EqualizerFailure':
